@@ -652,3 +652,41 @@ def main(argv):
     except Exception:
         print("HARNESS-ERROR %s:\n%s" % (pid, traceback.format_exc()), file=sys.stderr)
         return 2
+
+
+# ---------------------------------------------------------------------------
+# coverage-guided fuzzing shards (thorough tiers): vf/fuzz.py under atheris in a subprocess
+
+def fuzz_shard(target, seconds, seed, max_len=400):
+    """Run `python -m vf.fuzz <target>` for `seconds`; findings come back as failures of an Acc."""
+    import shutil
+    import subprocess
+    import tempfile
+    acc = Acc()
+    work = tempfile.mkdtemp(prefix="fuzz-%s-" % target, dir=os.path.join(OUT_DIR if OUT_DIR != VERIF_DIR else VERIF_DIR, ".work") if os.path.isdir(os.path.join(VERIF_DIR, ".work")) else None)
+    env = dict(os.environ, PYTHONPATH=os.pathsep.join([os.path.join(VERIF_DIR, ".deps"), VERIF_DIR]), PYTHONHASHSEED="0", PYTHONDONTWRITEBYTECODE="1")
+    try:
+        try:
+            p = subprocess.run([sys.executable, "-m", "vf.fuzz", target, work, "-max_total_time=%d" % seconds, "-seed=%d" % (seed % 2 ** 31 or 1), "-max_len=%d" % max_len,
+                                "-print_final_stats=0"], capture_output=True, text=True, env=env, timeout=seconds + 600, cwd=VERIF_DIR)
+        except subprocess.TimeoutExpired:
+            acc.extra["fuzz_timeouts"] = 1
+            return acc
+        sp = os.path.join(work, "stats.json")
+        if not os.path.exists(sp):
+            acc.extra["fuzz_unavailable"] = 1      # atheris missing: the tier degrades, it does not fail
+            acc.extra["fuzz_note"] = {(p.stderr or "")[-200:]: 1}
+            return acc
+        st = json.load(open(sp))
+        acc.extra["fuzz_execs"] = st["execs"]
+        acc.extra["fuzz_nontrivial_execs"] = st["nontrivial"]
+        acc.extra["fuzz_known"] = st["known"]
+        fd = os.path.join(work, "findings")
+        for fn in sorted(os.listdir(fd)):
+            rec = json.load(open(os.path.join(fd, fn)))
+            case = from_json(rec["case"])
+            acc.failures.append((rec["bucket"], rec["what"], case))
+            acc.fail_buckets[rec["bucket"]] = acc.fail_buckets.get(rec["bucket"], 0) + 1
+        return acc
+    finally:
+        shutil.rmtree(work, ignore_errors=True)
